@@ -90,3 +90,12 @@ Theorem C13_every_schedule_hypotheses_satisfiable :
   (forall x, no_put unit (parsep x)) /\ (forall x t, no_put unit (evalp x t)).
 Proof. exact hypotheses_satisfiable. Qed.
 Print Assumptions C13_every_schedule_hypotheses_satisfiable.
+
+(* ---- tie T for the status step: get_segment_level_requirement_validation_value and validate_data_element_freetext, executed by the translator for every
+   requirement indicator x every outcome of the node's own expression (condition fulfilled / unfulfilled / undetermined, bare indicator, invalid
+   expression) x every parent status x both flags (x absent / empty / filled input) -- Gen/Gen_status.v -- report what the model's segment_level and
+   validate_freetext report: status, presence of a hint, format verdict, data type, or the exception class. *)
+From Ahb Require Import Gen.Gen_status Proofs.C13_gen.
+Theorem C13_status_step_is_the_regenerated_table : forallb seg_row_ok seg_rows = true /\ forallb de_row_ok de_rows = true /\ length seg_rows = 240 /\ length de_rows = 720.
+Proof. exact (conj seg_rows_ok (conj de_rows_ok status_rows_complete)). Qed.
+Print Assumptions C13_status_step_is_the_regenerated_table.
